@@ -178,3 +178,30 @@ theorem runRoot_silent (P : Prims) (O : OutPrims) (cfg : Cfg) (fs : FS) (fuel : 
   unfold runRoot
   rw [frender_single, h]
   simp [Prog.bind, wrapFailAt, M.mapFail, flushM, Prog.mapFail, Prog.runPure]
+
+/-! ## From a token of a spelled template back to its item -/
+
+theorem mem_tokensOf_item (d : Delims) : ∀ (items : List Item) (line : Nat) (t : Token), t ∈ tokensOf d items line →
+    (t.ty = .tag ∨ t.ty = .obj) →
+    ∃ pre it post, items = pre ++ it :: post ∧ it.isText = false ∧ t = it.mainTok d (line + countNL (spell d pre))
+  | [], _, t, ht, _ => by simp [tokensOf] at ht
+  | it :: r, line, t, ht, hty => by
+    simp only [tokensOf, List.mem_append] at ht
+    rcases ht with ht | ht
+    · rcases Item.tokens_mem d line it t ht with rfl | rfl | rfl
+      · rcases hty with h | h <;> cases h
+      · rcases hty with h | h <;> cases h
+      · refine ⟨[], it, r, rfl, ?_, by simp [spell, countNL]⟩
+        cases it with
+        | text s => rcases hty with h | h <;> cases h
+        | obj args hl hr wl wr => rfl
+        | tag name args hl hr wl wm wr => rfl
+    · obtain ⟨pre, it', post, h1, h2, h3⟩ := mem_tokensOf_item d r _ t ht hty
+      refine ⟨it :: pre, it', post, by rw [h1]; rfl, h2, ?_⟩
+      rw [h3, spell_cons, countNL_append, Nat.add_assoc]
+
+theorem Item.mainTok_line (d : Delims) (l : Nat) (it : Item) : (it.mainTok d l).line = l := by
+  cases it <;> rfl
+
+/-- strict variables: an unbound variable is an error -/
+def strictCfg : Cfg := { strict := true }
